@@ -122,9 +122,23 @@ func (fs *FS) setFile(path string, file FileRecord) error {
 		err = fs.setFileTxn(txn, path, file, contents)
 	}
 	if err == nil {
-		_, err = txn.Commit(context.Background())
+		err = commitTxn(txn)
 	}
 	return err
+}
+
+// commitTxn commits 'txn' and returns the first error of its operations, if any.
+func commitTxn(txn Transaction) error {
+	results, err := txn.Commit(context.Background())
+	if err != nil {
+		return err
+	}
+	for _, result := range results {
+		if result.Err != nil {
+			return result.Err
+		}
+	}
+	return nil
 }
 
 func (fs *FS) setFileTxn(txn Transaction, path string, file FileRecord, contents blob.Blob) error {
